@@ -344,13 +344,27 @@ fn run_case_inner(p: &mut Puppet, c: &Case) -> Outcome {
 /// starts, so the writer's attach does not take effect at once.  Whatever the writer does meanwhile,
 /// once the wait is over nobody may be traced or stopped and the slow thread must run again.
 /// fault: 0 none, 1 destination error at call 5, 2 StopProcess fail point, 3 stop timeout 5 ms
-fn run_slow_stop(fault: u8) -> (Value, Vec<(String, String)>) {
-    let case = json!({"slow_stop": fault});
+fn run_slow_stop(fault: u8, burst: bool) -> (Value, Vec<(String, String)>) {
+    let case = json!({"slow_stop": fault, "burst": burst});
     let mut fails = Vec::new();
     let mut p = Puppet::spawn();
     p.add_thread(Kind::Block);
+    let burst_sigs = [libc::SIGHUP, libc::SIGINT, libc::SIGQUIT, libc::SIGABRT, libc::SIGUSR1, libc::SIGUSR2, libc::SIGPIPE, libc::SIGALRM, libc::SIGTERM, libc::SIGSTKFLT];
+    if burst {
+        let _ = p.cmd("morehandlers");
+    }
+    let log_before = p.signal_log().len();
     let (slow_tid, counter) = p.vforkwait(2500);
     std::thread::sleep(std::time::Duration::from_millis(150));
+    if burst {
+        // ten distinct standard signals queue up for the thread while it cannot act on them: once the
+        // writer has attached, each one surfaces as a signal-delivery stop that must be handed back
+        for s in burst_sigs {
+            unsafe {
+                libc::syscall(libc::SYS_tgkill, p.pid, slow_tid, s);
+            }
+        }
+    }
     let mut spec = EnvSpec::default();
     match fault {
         1 => spec.dest_fault = Some(Fault::ErrAt(5)),
@@ -397,6 +411,23 @@ fn run_slow_stop(fault: u8) -> (Value, Vec<(String, String)>) {
         fails.push((format!("slow-stop/{k}"), format!("dump took {:.1} s; 8 s after it ended: {}", took.as_secs_f64(), bad.join("; "))));
     } else if p.cmd("ping").is_err() {
         fails.push(("slow-stop/main-thread-dead".into(), "the control thread does not answer".into()));
+    } else if burst {
+        let dl = std::time::Instant::now() + std::time::Duration::from_secs(5);
+        let mut got: Vec<(i32, i32)>;
+        loop {
+            got = p.signal_log()[log_before..].to_vec();
+            if (got.len() >= burst_sigs.len() && !got.iter().any(|g| g.0 == 0 || g.1 == 0)) || std::time::Instant::now() > dl {
+                break;
+            }
+            std::thread::sleep(std::time::Duration::from_millis(2));
+        }
+        for s in burst_sigs {
+            let n = got.iter().filter(|g| **g == (slow_tid, s)).count();
+            if n != 1 {
+                fails.push((if n == 0 { "slow-stop/signal-lost" } else { "slow-stop/signal-duplicated" }.into(), format!("signal {s} queued for the slow thread {slow_tid} before the dump was handled {n} times (log: {got:?})")));
+                break;
+            }
+        }
     }
     (case, fails)
 }
@@ -474,7 +505,7 @@ pub fn run(ctx: &Ctx, rep: &mut Report) {
     rep.assume("the kernel's choice among runnable target threads while the dumper is blocked is not controlled; PTRACE_DETACH/PTRACE_CONT/SIGCONT are never made to fail");
     if let Some(case) = &ctx.replay {
         if let Some(f) = case.get("slow_stop").and_then(|f| f.as_u64()) {
-            let (c, fails) = run_slow_stop(f as u8);
+            let (c, fails) = run_slow_stop(f as u8, case.get("burst").and_then(|b| b.as_bool()).unwrap_or(false));
             rep.evaluations += 1;
             for (k, m) in fails {
                 rep.violation(&k, &m, c.clone());
@@ -626,13 +657,21 @@ pub fn run(ctx: &Ctx, rep: &mut Report) {
         }
     }
     // slow-to-stop thread (vfork wait) under four fault contexts
-    let slow: Vec<u8> = vec![0, 1, 2, 3];
-    let sres = par_map(&slow, |_, f| {
-        crate::watch::begin(json!({"slow_stop": f}));
-        let r = run_slow_stop(*f);
+    let slow: Vec<(u8, bool)> = vec![(0, false), (1, false), (3, false), (0, true), (3, true)];
+    let mut sres = par_map(&slow, |_, (f, burst)| {
+        crate::watch::begin(json!({"slow_stop": f, "burst": burst}));
+        let r = run_slow_stop(*f, *burst);
         crate::watch::end();
         r
     });
+    // the fail-point cases need the process-global fail-point lock for the whole dump: run them one after
+    // the other, otherwise the second one would start its dump only after its slow thread's wait is over
+    for burst in [false, true] {
+        crate::watch::begin(json!({"slow_stop": 2, "burst": burst}));
+        sres.push(run_slow_stop(2, burst));
+        crate::watch::end();
+    }
+    let slow: Vec<(u8, bool)> = slow.into_iter().chain([(2, false), (2, true)]).collect();
     for (case, fails) in sres {
         rep.evaluations += 1;
         rep.nontrivial += 1;
